@@ -248,12 +248,15 @@ def qm(I):
 
 
 def _shallow_index(t, depth):
-    """t is a constant, or an uninterpreted function applied to shallow indices (at most `depth`
-    applications deep): sigma(w), sigma(wU(n)) but not sigma(sigma(sigma(w)))."""
+    """t is a constant / numeral, or an application (index function, +, ite ...) of shallow terms, at
+    most `depth` applications high: sigma(w), sigma(wU(n)), wU(n) + i + 1, ite(u < j, u, u + 1) - but
+    not sigma(sigma(sigma(w))) or a shift of a shift."""
     if z3.is_const(t):
         return True
-    if depth == 0 or not (z3.is_app(t) and t.decl().kind() == z3.Z3_OP_UNINTERPRETED):
+    if depth == 0 or not z3.is_app(t):
         return False
+    if t.decl().kind() not in (z3.Z3_OP_UNINTERPRETED, z3.Z3_OP_ADD):
+        return False                  # (ite-shifted indices of entry-removed lists multiply without bound)
     return all(_shallow_index(c, depth - 1) for c in t.children())
 
 
